@@ -659,3 +659,167 @@ func checkVerifiedSignatures(cx *CheckCtx, sp *ssa.Package) {
 func isErrorType(t types.Type) bool {
 	return types.Identical(t, types.Universe.Lookup("error").Type())
 }
+
+// checkDivideIndices: a helper that hands out shares through a callback
+// `f(index, amount)` passes every receiver index at most once. Call sites in
+// different counting loops pass index ranges [c, c+n) (c the offset added to
+// the loop variable, n the loop's bound); two such ranges must be adjacent
+// (c₂ == c₁ + n₁ or the other way round) — otherwise a receiver is paid
+// twice and another not at all, and the shares no longer differ by at most one.
+func checkDivideIndices(cx *CheckCtx, sp *ssa.Package) {
+	w := cx.W
+	n := 0
+	for _, fn := range allFuncs(sp) {
+		if fn.Blocks == nil {
+			continue
+		}
+		var cb *ssa.Parameter
+		for _, p := range fn.Params {
+			if sig, ok := p.Type().Underlying().(*types.Signature); ok && sig.Params().Len() == 2 && sig.Results().Len() == 0 && isInteger(sig.Params().At(0).Type()) && isInteger(sig.Params().At(1).Type()) {
+				cb = p
+			}
+		}
+		if cb == nil {
+			continue
+		}
+		type rng struct {
+			hdr      *ssa.BasicBlock
+			off, len ssaLinForm
+			pos      token.Pos
+		}
+		var rs []rng
+		for _, b := range fn.Blocks {
+			for _, ins := range b.Instrs {
+				c, ok := ins.(*ssa.Call)
+				if !ok || c.Common().Value != ssa.Value(cb) || c.Common().IsInvoke() {
+					continue
+				}
+				idx := ssaLin(c.Common().Args[0], 0)
+				var phi *ssa.Phi
+				for v, k := range idx.c {
+					if p, isPhi := v.(*ssa.Phi); isPhi && k == 1 {
+						for _, pr := range p.Block().Preds {
+							if p.Block().Dominates(pr) {
+								phi = p
+							}
+						}
+					}
+				}
+				if phi == nil {
+					continue
+				}
+				hdr := phi.Block()
+				// the loop variable may be the phi itself or phi+1 (range loops count from -1)
+				var start ssa.Value
+				for i, pr := range hdr.Preds {
+					if !hdr.Dominates(pr) {
+						start = phi.Edges[i]
+					}
+				}
+				ifi, isIf := hdr.Instrs[len(hdr.Instrs)-1].(*ssa.If)
+				if start == nil || !isIf {
+					continue
+				}
+				cond, isBin := ifi.Cond.(*ssa.BinOp)
+				if !isBin || cond.Op != token.LSS {
+					continue
+				}
+				// cond: v < bound with v = phi + k. In a header-tested loop the phi takes the values
+				// [start, bound − k); in a rotated loop (range over an integer) the test is made on the
+				// next value (v is the back-edge value of the phi) and the phi takes [start, bound − k + 1)
+				v := ssaLin(cond.X, 0)
+				onePhi := ssaLinForm{c: map[ssa.Value]int64{phi: 1}}
+				kf := v.plus(onePhi, -1)
+				if len(kf.c) != 0 {
+					continue
+				}
+				end := ssaLin(cond.Y, 0).plus(kf, -1)
+				for i, pr := range hdr.Preds {
+					if hdr.Dominates(pr) && phi.Edges[i] == cond.X {
+						end = end.plus(ssaLinForm{c: map[ssa.Value]int64{}, k: 1}, 1)
+					}
+				}
+				first := ssaLin(start, 0)
+				bound := end
+				// index = phi + off  ⇒ off = idx − phi
+				off := idx.plus(onePhi, -1)
+				rs = append(rs, rng{hdr, off.plus(first, 1), bound.plus(first, -1), c.Pos()})
+			}
+		}
+		for i := 0; i < len(rs); i++ {
+			for j := i + 1; j < len(rs); j++ {
+				if rs[i].hdr == rs[j].hdr {
+					continue
+				}
+				n++
+				adj := rs[j].off.equal(rs[i].off.plus(rs[i].len, 1)) || rs[i].off.equal(rs[j].off.plus(rs[j].len, 1))
+				cx.decide(adj, "divide-indices", fmt.Sprintf("deploy.%s@%s", fn.Name(), w.pos(rs[j].pos)), "the index ranges handed to the callback by the two loops are adjacent", fmt.Sprintf("%s hands the callback the indices [%s, +%s) in one loop and [%s, +%s) in another: the ranges are not adjacent, a receiver is given two shares and another none", fn.Name(), rs[i].off, rs[i].len, rs[j].off, rs[j].len), w.pos(rs[j].pos))
+			}
+		}
+		cx.count("divide_callback_sites", len(rs))
+	}
+	cx.count("divide_range_pairs", n) // no floor: one loop (today) has no pair to compare
+}
+
+// checkConfigIntCodec: numeric settings reach the contracts as the byte strings
+// the deployment hands to Netmap's _deploy; the contracts read them back as VM
+// integers (`storage.Get(...).(int)`). Writer and reader agree only if the
+// writer uses the VM's own integer encoding (two's complement, little-endian,
+// with a sign byte when the top bit is set). Every function of package deploy
+// that turns an integer into a byte string must therefore return what neo-go's
+// integer codec produced (stackitem.BigInteger.Bytes / bigint.ToBytes), not a
+// hand-made byte order: without the sign byte a fee of 50000 is read as −15536.
+func checkConfigIntCodec(cx *CheckCtx, rule string) {
+	w := cx.W
+	dp := w.ByPath[modPrefix+"deploy"]
+	if dp == nil {
+		return
+	}
+	sp := w.Prog.Package(dp.Types)
+	if sp == nil {
+		return
+	}
+	isBytes := func(t types.Type) bool {
+		s, ok := t.Underlying().(*types.Slice)
+		if !ok {
+			return false
+		}
+		b, ok := s.Elem().Underlying().(*types.Basic)
+		return ok && b.Kind() == types.Uint8
+	}
+	n := 0
+	for _, fn := range allFuncs(sp) {
+		sig := fn.Signature
+		if fn.Blocks == nil || fn.Parent() != nil || sig.Recv() != nil || sig.Params().Len() != 1 || sig.Results().Len() != 1 || !isInteger(sig.Params().At(0).Type()) || !isBytes(sig.Results().At(0).Type()) {
+			continue
+		}
+		n++
+		ok, what := true, ""
+		for _, b := range fn.Blocks {
+			ret, isRet := b.Instrs[len(b.Instrs)-1].(*ssa.Return)
+			if !isRet {
+				continue
+			}
+			good := false
+			if c, isCall := ret.Results[0].(*ssa.Call); isCall {
+				if cal := c.Common().StaticCallee(); cal != nil {
+					name := cal.String()
+					if strings.Contains(name, "stackitem.BigInteger).Bytes") || strings.Contains(name, "encoding/bigint.ToBytes") || strings.Contains(name, "encoding/bigint.ToPreallocatedBytes") {
+						good = true
+					} else {
+						what = "it returns the result of " + name
+					}
+				}
+			}
+			if !good {
+				ok = false
+				if what == "" {
+					what = "it returns bytes it arranged itself"
+				}
+			}
+		}
+		cx.decide(ok, rule, "deploy."+fn.Name(), "integers become byte strings through neo-go's VM integer codec", "deploy."+fn.Name()+" turns an integer setting into bytes without the VM's integer codec ("+what+"): the contracts read the stored bytes back as a VM integer, so a value whose top bit is set comes back negative (or an empty string for 0 is read differently) — fees and counts configured at deployment are not the ones the contracts use", w.pos(fn.Pos()))
+	}
+	cx.count("deploy_int_encoders", n)
+	cx.floor("deploy_int_encoders", 1)
+}
